@@ -37,7 +37,7 @@ class ObFail(Exception):
         self.detail = detail
 
 
-def run_obligation(pkg, fn, hook=None, max_paths=64):
+def run_obligation(pkg, fn, hook=None, max_paths=256):
     """fn(it) -> stats dict, or raises ObFail(detail).  All paths are explored; every path must succeed.
 
     Returns dict(status, detail, paths, stats)."""
